@@ -444,7 +444,7 @@ class Interp:
 
     def e_Attribute(self, node, fr):
         base = self.eval(node.value, fr)
-        return self.getattr(base, node.attr, fr, node)
+        return self.getattr(base, mangle(node.attr, fr), fr, node)
 
     def getattr(self, base, name, fr, node=None):
         ctx = self.ctx
@@ -530,6 +530,9 @@ class Interp:
             return VClass(name)
         if mod == 'select' and name == 'error':
             return VClass('OSError')
+        if mod == 'select' and name.startswith('POLL'):
+            import select as _sel
+            return VInt(int(getattr(_sel, name)))
         if mod == 'socket' and name == 'timeout':
             return VClass('socket.timeout')
         if mod == 'sys' and name == 'platform':
@@ -1090,6 +1093,7 @@ class Interp:
             return VAny(self.ctx._const('ext.' + name.replace('.', '_'), Val))
         bound = con.bind(args, kwargs, self)
         self.ctx.trust('assumed contract: ' + name)
+        self._handling = getattr(fr, 'handling', None)
         return self.apply_contract(con, bound, fr, name)
 
     def to_str_call(self, v, fr):
@@ -1239,7 +1243,7 @@ class Interp:
                     fi = self.prog.find_method(h.cls, s)
                     self.call_function(fi, [base, v], {}, fr, recv_cls=h.cls)
                     return
-            h.fields[target.attr] = v
+            h.fields[mangle(target.attr, fr)] = v
             return
         if isinstance(target, ast.Subscript):
             base = self.eval(target.value, fr)
@@ -1635,6 +1639,13 @@ class ContractView:
     def draw(self, ty, hint):
         """A fresh value of the given type (existential witness of an assumed contract)."""
         return to_spec(self.ctx, self.ctx.heap, self.ctx.fresh(ty, '%s.%s' % (self.what, hint) if self.what else hint))
+
+
+def mangle(attr, fr):
+    """private name mangling: self.__x inside class C is attribute _C__x"""
+    if attr.startswith('__') and not attr.endswith('__') and fr is not None and fr.cls:
+        return '_%s%s' % (fr.cls.split('.')[-1].lstrip('_'), attr)
+    return attr
 
 
 def assigned_names(loopnode):
